@@ -163,9 +163,10 @@ def run_C06(ctx):
     proof = core.proof_stage("C06")
     core.builds()
     n = ctx.scale(500, 5000)
-    cases = corpus("C06") + gen_cases(ctx, n, 5, ctx.scale(50, 200), big_cache=True, p_reject=0.2, restarts=1,
-                                      finals=["F 1", "I", "G", "H", "R 0 100000", "D", "K",
-                                              "X 100000 1073741824 5 1073741824 1 64", "G", "R 0 100000"])
+    fin = ["F 1", "I", "G", "H", "R 0 100000", "D", "K", "X 100000 1073741824 5 1073741824 1 64", "G", "R 0 100000"]
+    # half under large caches, half under tiny ones (a refused call must not evict anything either)
+    cases = corpus("C06") + gen_cases(ctx, n - n // 2, 5, ctx.scale(50, 200), big_cache=True, p_reject=0.2, restarts=1, finals=fin) \
+        + gen_cases(ctx, n // 2, 5, ctx.scale(50, 200), big_cache=False, small_cache=True, p_reject=0.2, restarts=1, finals=fin)
     # a stat + resident listing around every operation, so that a refused call can be compared before/after
     cases2 = []
     for c in cases:
@@ -182,7 +183,10 @@ def run_C06(ctx):
         cases2.append(head + "| " + " ; ".join(out))
     cases = cases2
     impl, model = seq_run(ctx, cases)
-    spec_oracle(ctx, cases, impl, "C06 oracle")
+    # reads are compared with the reference log only under large caches (under cache pressure a
+    # read can fail for the reason recorded as finding F2 of C07, which is not C06's subject)
+    big = [i for i, c in enumerate(cases) if gen.cfg_ints(c.split("|")[0].split()[1:])[0] >= 100000 and gen.cfg_ints(c.split("|")[0].split()[1:])[1] >= (1 << 30)]
+    spec_oracle(ctx, [cases[i] for i in big], [impl[i] for i in big], "C06 oracle")
     # direct: a call answered with err leaves stat (state, chunks, cache counters, boundary) and the resident set unchanged
     bad = 0
     nrej = 0
@@ -502,6 +506,43 @@ def run_C11(ctx):
             if bad <= 3:
                 ctx.fail("oracle", "C11 oracle: " + why, dict(kind="seq", case=c, detail=why))
     ctx.k_checks["oracle-journal-layout"] = (bad == 0, len(cases))
+    # a rotation as the very last write before a restart WITHOUT flush (drop, reopen), then more
+    # writes: no file may hold more records than the limit, files abut, every file starts with a snapshot
+    ucases, ulim = [], []
+    for j in range(ctx.scale(12, 80)):
+        R = ctx.rnd.choice([2, 3, 4, 5])
+        cfg = "100000 1073741824 %d 1073741824 1 %d" % (R, ctx.rnd.choice(gen.CFG_RBUF))
+        k = ctx.rnd.randint(1, 3) * (R - 1)               # entries that exactly fill k/(R-1) chunks
+        ops = ["A 1 %d x%02x" % (i, i) for i in range(k)]
+        if ctx.rnd.random() < 0.5:
+            ops.insert(ctx.rnd.randrange(len(ops)), "F 1")
+        ops = gen.sync_ops(ops) + ["X " + cfg] + gen.sync_ops(["A 1 %d x%02x" % (i, i) for i in range(k, k + ctx.rnd.randint(1, R + 1))]) + ["F 1", "I", "G", "K"]
+        ucases.append("SEQ %s | %s" % (cfg, " ; ".join(ops)))
+        ulim.append(R)
+    ui, um = seq_run(ctx, ucases)
+    badu = 0
+    for c, a, R in zip(ucases, ui, ulim):
+        f = fields(a)
+        why = None
+        if not f[-1].startswith("disk "):
+            why = "the history did not run to its end: " + a[-200:]
+        else:
+            import p_recover as _pr
+            prev = None
+            for fid, data in _pr.parse_disk(f[-1]):
+                rs = pydec.decode_all(data)
+                if len(rs) > max(R, 2):
+                    why = "chunk file %d holds %d records, the limit is %d" % (fid, len(rs), R)
+                if not rs or rs[0][0][0] != "S":
+                    why = "chunk file %d does not start with a state snapshot" % fid
+                if prev is not None and prev != fid:
+                    why = "files do not abut at %d" % fid
+                prev = fid + len(data)
+        if why:
+            badu += 1
+            if badu <= 3:
+                ctx.fail("oracle", "C11 oracle: after a restart without flush right behind a rotation: " + why, dict(kind="seq", case=c, detail=why))
+    ctx.k_checks["oracle-rotation-then-unflushed-restart"] = (badu == 0, len(ucases))
     # the same layout facts after a chunk rotation that failed on the caller thread (the next
     # file could not be created) and the writes that followed: judged on the implementation alone
     import p_trace, p_recover
